@@ -21,6 +21,7 @@ func init() {
 			c.rule("C18.R2", "limit-error-before-effects", 3, func() { c18R2(c, "C18.R2") })
 			c18R3(c, "C18.R3")
 			ruleAllocateLimitTable(c, "C18.R5")
+			c03R1(c, "C18.R6") // "the database can still be read, written within the limit, closed": no exit keeps the writer lock
 			c08R1(c, "C18.R4") // a size-limit failure of Commit performs the PHYSICAL rollback: pages already taken from the free list are given back
 		},
 		Platform: func(c *Ctx) {
